@@ -203,6 +203,9 @@ func (x *Exec) applyContract(st *State, fr *Frame, site ssa.Instruction, c *Cont
 		e2.panicked = true
 		e2.panicVal = pv
 		for _, en := range c.EnsuresP {
+			if mentionsTrace(en.Expr) {
+				continue // as for normal returns: the callee's own atomic points are not in the caller's trace
+			}
 			s.assume(x.quantifyForalls(e2, c, unbound, qreq, en))
 		}
 		kp(s, pv)
